@@ -515,6 +515,162 @@ value is stripped away and the line is ACCEPTED with an altered value (out of do
 theorem decodeLine_blank_sep_value_altered :
     decodeLine '\t' (encodeLine '\t' "a".toList "b\t".toList) = some ("a".toList, "b".toList) := by decide
 
+/-! #### a separator that is not a blank: the COMPLETE behaviour of the line codec
+
+`decodeLine_three_fields_refused` needs `strip line = line`.  For the separators pyGAPS is used with (`,` `;` `|` — anything that
+`str.strip()` does not remove) that hypothesis can be dropped: `strip` removes blanks only, so it can neither remove a separator at
+the very end of the value (`'see notes,'`, `'batch 7,,'`) nor one at the very start of the key.  What the reader returns for a
+written line is then known for EVERY key and value: refused iff key or value contains the separator (at any position), else the key
+without its leading blanks and the value without its trailing blanks. -/
+
+lemma strip_eq_stripR_stripL (s : Str) : strip s = stripR (stripL s) := rfl
+
+private lemma stripL_cons_space (c : Char) (t : Str) (h : isSpaceC c = true) : stripL (c :: t) = stripL t := by
+  show (if isSpaceC c = true then stripL t else c :: t) = stripL t
+  rw [if_pos h]
+
+private lemma stripL_cons_nonspace (c : Char) (t : Str) (h : isSpaceC c = false) : stripL (c :: t) = c :: t :=
+  stripL_self (c :: t) (fun d hd => by
+    simp only [List.head?_cons, Option.some.injEq] at hd
+    subst hd; exact h)
+
+/-- a character that is not a blank stops `stripL` -/
+lemma stripL_append_nonspace (sep : Char) (hsep : isSpaceC sep = false) (k v : Str) :
+    stripL (k ++ sep :: v) = stripL k ++ sep :: v := by
+  induction k with
+  | nil => exact stripL_cons_nonspace sep v hsep
+  | cons c t ih =>
+    rw [List.cons_append]
+    by_cases hc : isSpaceC c = true
+    · rw [stripL_cons_space c _ hc, stripL_cons_space c t hc, ih]
+    · rw [Bool.not_eq_true] at hc
+      rw [stripL_cons_nonspace c _ hc, stripL_cons_nonspace c t hc, List.cons_append]
+
+/-- `strip` of a written line, for a separator that is not a blank: only the two outer ends are touched -/
+lemma strip_encodeLine (sep : Char) (hsep : isSpaceC sep = false) (k v : Str) :
+    strip (k ++ [sep] ++ v) = stripL k ++ [sep] ++ stripR v := by
+  unfold strip stripR
+  rw [List.append_assoc, List.singleton_append, stripL_append_nonspace sep hsep, List.reverse_append, List.reverse_cons,
+    List.append_assoc, List.singleton_append, stripL_append_nonspace sep hsep, List.reverse_append, List.reverse_cons,
+    List.reverse_reverse]
+
+/-- `stripL` removes blanks only -/
+lemma count_stripL (c : Char) (hc : isSpaceC c = false) (s : Str) : (stripL s).count c = s.count c := by
+  induction s with
+  | nil => rfl
+  | cons d t ih =>
+    by_cases hd : isSpaceC d = true
+    · have hne : d ≠ c := fun e => by rw [e, hc] at hd; exact Bool.false_ne_true hd
+      rw [stripL_cons_space d t hd, ih, List.count_cons_of_ne hne]
+    · rw [Bool.not_eq_true] at hd
+      rw [stripL_cons_nonspace d t hd]
+
+lemma count_stripR (c : Char) (hc : isSpaceC c = false) (s : Str) : (stripR s).count c = s.count c := by
+  unfold stripR
+  rw [List.count_reverse, count_stripL c hc, List.count_reverse]
+
+lemma mem_stripL_iff (c : Char) (hc : isSpaceC c = false) (s : Str) : c ∈ stripL s ↔ c ∈ s := by
+  rw [← List.count_pos_iff, ← List.count_pos_iff, count_stripL c hc]
+
+lemma mem_stripR_iff (c : Char) (hc : isSpaceC c = false) (s : Str) : c ∈ stripR s ↔ c ∈ s := by
+  rw [← List.count_pos_iff, ← List.count_pos_iff, count_stripR c hc]
+
+/-- `stripL` leaves a text alone iff it does not begin with a blank -/
+lemma stripL_eq_self_iff (s : Str) : stripL s = s ↔ ∀ c, s.head? = some c → isSpaceC c = false := by
+  refine ⟨fun h c hc => ?_, stripL_self s⟩
+  by_contra hsp
+  rw [Bool.not_eq_false] at hsp
+  cases s with
+  | nil => simp at hc
+  | cons d t =>
+    simp only [List.head?_cons, Option.some.injEq] at hc
+    subst hc
+    have h2 := stripL_length_lt d t hsp
+    rw [h] at h2
+    exact lt_irrefl _ h2
+
+/-- `stripR` leaves a text alone iff it does not end with a blank -/
+lemma stripR_eq_self_iff (s : Str) : stripR s = s ↔ ∀ c, s.getLast? = some c → isSpaceC c = false := by
+  unfold stripR
+  rw [← List.head?_reverse, ← stripL_eq_self_iff]
+  constructor
+  · intro h; rw [← List.reverse_reverse (stripL s.reverse), h]
+  · intro h; rw [h, List.reverse_reverse]
+
+/-- THE line codec for a separator that is not a blank, for EVERY key and value: the written line is refused iff key or value
+contains the separator — wherever it stands: at the start, inside, at the very end, repeated, alone —, otherwise the reader
+returns the key without leading blanks and the value without trailing blanks.  Nothing else can come back. -/
+theorem decodeLine_encodeLine_eq (sep : Char) (hsep : isSpaceC sep = false) (k v : Str) :
+    decodeLine sep (encodeLine sep k v) = if sep ∈ k ∨ sep ∈ v then none else some (stripL k, stripR v) := by
+  unfold encodeLine
+  split_ifs with h
+  · rw [decodeLine_eq_none_iff, strip_encodeLine sep hsep, List.count_append, List.count_append, List.count_singleton_self,
+      count_stripL sep hsep, count_stripR sep hsep]
+    rcases h with h | h
+    · have := List.count_pos_iff.2 h; omega
+    · have := List.count_pos_iff.2 h; omega
+  · rw [not_or] at h
+    rw [decodeLine_eq_some_iff]
+    exact ⟨strip_encodeLine sep hsep k v, fun hm => h.1 ((mem_stripL_iff sep hsep k).1 hm),
+      fun hm => h.2 ((mem_stripR_iff sep hsep v).1 hm)⟩
+
+/-- a value the format cannot carry is refused — the separator at ANY position of the value, no side condition on blanks -/
+theorem decodeLine_sep_in_value_refused (sep : Char) (hsep : isSpaceC sep = false) (k v : Str) (hv : sep ∈ v) :
+    decodeLine sep (encodeLine sep k v) = none := by
+  rw [decodeLine_encodeLine_eq sep hsep, if_pos (Or.inr hv)]
+
+/-- the same for a key that contains the separator -/
+theorem decodeLine_sep_in_key_refused (sep : Char) (hsep : isSpaceC sep = false) (k v : Str) (hk : sep ∈ k) :
+    decodeLine sep (encodeLine sep k v) = none := by
+  rw [decodeLine_encodeLine_eq sep hsep, if_pos (Or.inl hk)]
+
+/-- the position the repository's tests never try: the separator at the very END of the value, once or repeated
+(`'see notes,'`, `'batch 7,,'`).  The line then ends in empty fields; a reader that drops trailing empty fields would accept it
+and hand back the value WITHOUT its last characters. -/
+theorem decodeLine_trailing_sep_refused (sep : Char) (hsep : isSpaceC sep = false) (k v : Str) (n : Nat) :
+    decodeLine sep (encodeLine sep k (v ++ List.replicate (n + 1) sep)) = none :=
+  decodeLine_sep_in_value_refused sep hsep k _ (List.mem_append_right _ (by simp))
+
+/-- ... and at the very start of the value, or alone -/
+theorem decodeLine_leading_sep_refused (sep : Char) (hsep : isSpaceC sep = false) (k v : Str) :
+    decodeLine sep (encodeLine sep k (sep :: v)) = none :=
+  decodeLine_sep_in_value_refused sep hsep k _ (by simp)
+
+example : decodeLine ',' (encodeLine ',' "comment".toList "see notes,".toList) = none ∧
+    decodeLine ',' (encodeLine ',' "comment".toList "batch 7,,".toList) = none ∧
+    decodeLine ';' (encodeLine ';' "comment".toList "a;".toList) = none ∧
+    decodeLine ',' (encodeLine ',' "comment".toList ",".toList) = none ∧
+    decodeLine ',' (encodeLine ',' "comment".toList ",a".toList) = none := by decide
+
+/-- "refused or unchanged" — the last sentence of the property for one metadata line — holds EXACTLY when the key does not begin
+and the value does not end with a blank (or the line is refused anyway).  The remaining region is finding S18-csv-padded. -/
+theorem decodeLine_refused_or_unchanged_iff (sep : Char) (hsep : isSpaceC sep = false) (k v : Str) :
+    (decodeLine sep (encodeLine sep k v) = none ∨ decodeLine sep (encodeLine sep k v) = some (k, v)) ↔
+      (sep ∈ k ∨ sep ∈ v) ∨
+        ((∀ c, k.head? = some c → isSpaceC c = false) ∧ (∀ c, v.getLast? = some c → isSpaceC c = false)) := by
+  rw [decodeLine_encodeLine_eq sep hsep, ← stripL_eq_self_iff, ← stripR_eq_self_iff]
+  split_ifs with h
+  · simp [h]
+  · simp [h]
+
+/-- no blank at the outer ends: a written line is refused or comes back exactly — never a different key or value -/
+theorem decodeLine_never_silently_changed (sep : Char) (hsep : isSpaceC sep = false) (k v : Str)
+    (hk : ∀ c, k.head? = some c → isSpaceC c = false) (hv : ∀ c, v.getLast? = some c → isSpaceC c = false) :
+    decodeLine sep (encodeLine sep k v) = none ∨ decodeLine sep (encodeLine sep k v) = some (k, v) :=
+  (decodeLine_refused_or_unchanged_iff sep hsep k v).2 (Or.inr ⟨hk, hv⟩)
+
+example : (∀ c, "comment".toList.head? = some c → isSpaceC c = false) ∧
+    (∀ c, "see notes,".toList.getLast? = some c → isSpaceC c = false) := by decide
+
+/-- finding S18-csv-padded in the model: a value that ends in a blank is accepted and comes back without it -/
+theorem decodeLine_trailing_blank_value_altered :
+    decodeLine ',' (encodeLine ',' "k".toList "padded ".toList) = some ("k".toList, "padded".toList) := by decide
+
+/-- candidate finding (tab, carriage return at the end of a value: the same `strip`) -/
+theorem decodeLine_trailing_tab_value_altered :
+    decodeLine ',' (encodeLine ',' "k".toList "ab\t".toList) = some ("k".toList, "ab".toList) ∧
+    decodeLine ',' (encodeLine ',' "k".toList "ab\r".toList) = some ("k".toList, "ab".toList) := by decide
+
 /-- key and value both in the stated text domain: the line is read back as the same key and value ... -/
 theorem decodeLine_encodeLine_inCsvDomain (sep : Char) (k v : Str) (hk : inCsvDomain sep k = true)
     (hv : inCsvDomain sep v = true) : decodeLine sep (encodeLine sep k v) = some (k, v) := by
@@ -539,5 +695,113 @@ theorem csv_text_metadata_roundtrip (sep : Char) (k v : Str) (hk : inCsvDomain s
     (hv : inCsvDomain sep v = true) :
     (decodeLine sep (encodeLine sep k v)).map (fun kv => (kv.1, castString kv.2)) = some (k, .str v) := by
   rw [decodeLine_encodeLine_inCsvDomain sep k v hk hv, Option.map_some, cast_text_identity sep v hv]
+
+/-! #### the metadata block: the reader's loop over the lines of a document (`readMeta`) -/
+
+private lemma stripL_idem (s : Str) : stripL (stripL s) = stripL s := by
+  induction s with
+  | nil => rfl
+  | cons c t ih =>
+    by_cases hc : isSpaceC c = true
+    · rw [stripL_cons_space c t hc, ih]
+    · rw [Bool.not_eq_true] at hc
+      rw [stripL_cons_nonspace c t hc, stripL_cons_nonspace c t hc]
+
+lemma stripR_idem (s : Str) : stripR (stripR s) = stripR s := by
+  unfold stripR
+  rw [List.reverse_reverse, stripL_idem]
+
+/-- `rstrip` of a written line touches the value only (separator not a blank) -/
+lemma stripR_encodeLine (sep : Char) (hsep : isSpaceC sep = false) (k v : Str) :
+    stripR (encodeLine sep k v) = encodeLine sep k (stripR v) := by
+  unfold stripR encodeLine
+  rw [List.append_assoc, List.singleton_append, List.reverse_append, List.reverse_cons, List.append_assoc, List.singleton_append,
+    stripL_append_nonspace sep hsep, List.reverse_append, List.reverse_cons, List.reverse_reverse, List.append_assoc,
+    List.singleton_append]
+
+/-- ONE step of the loop on a line the writer produced, for every key and value (separator not a blank): unless the line ends the
+loop, it is refused iff key or value contains the separator — at any position —, otherwise the entry read is the key without leading
+and the value without trailing blanks, and the loop goes on with the next line -/
+theorem readMeta_written_line (sep : Char) (hsep : isSpaceC sep = false) (stops : List Str) (k v : Str) (ls : List Str)
+    (hstop : stopsAt stops (stripR (encodeLine sep k v)) = false) :
+    readMeta sep stops (encodeLine sep k v :: ls) =
+      if sep ∈ k ∨ sep ∈ v then .refused
+      else match readMeta sep stops ls with
+        | .refused => .refused
+        | .read es rest => .read ((stripL k, stripR v) :: es) rest := by
+  rw [readMeta, if_neg (by rw [hstop]; exact Bool.false_ne_true), stripR_encodeLine sep hsep, decodeLine_encodeLine_eq sep hsep,
+    stripR_idem]
+  simp only [mem_stripR_iff sep hsep]
+  split_ifs with h <;> rfl
+
+/-- an entry whose written line the loop reads back exactly: no separator in key or value, the key does not begin and the value
+does not end with a blank, and the line does not look like the end of the block -/
+def CleanEntry (sep : Char) (stops : List Str) (kv : Str × Str) : Prop :=
+  sep ∉ kv.1 ∧ sep ∉ kv.2 ∧ (∀ c, kv.1.head? = some c → isSpaceC c = false) ∧ (∀ c, kv.2.getLast? = some c → isSpaceC c = false) ∧
+    stopsAt stops (encodeLine sep kv.1 kv.2) = false
+
+private lemma clean_line (sep : Char) (hsep : isSpaceC sep = false) (stops : List Str) (kv : Str × Str) (h : CleanEntry sep stops kv) :
+    stopsAt stops (stripR (encodeLine sep kv.1 kv.2)) = false ∧ stripL kv.1 = kv.1 ∧ stripR kv.2 = kv.2 := by
+  obtain ⟨_, _, hk, hv, hs⟩ := h
+  have e2 : stripR kv.2 = kv.2 := (stripR_eq_self_iff _).2 hv
+  refine ⟨?_, (stripL_eq_self_iff _).2 hk, e2⟩
+  rw [stripR_encodeLine sep hsep, e2]
+  exact hs
+
+/-- the block the writer produces for clean entries is read back as exactly these entries, whatever follows the line that ends it -/
+theorem readMeta_written (sep : Char) (hsep : isSpaceC sep = false) (stops : List Str) (entries : List (Str × Str)) (tail : List Str)
+    (h : ∀ kv ∈ entries, CleanEntry sep stops kv)
+    (htail : tail = [] ∨ ∃ l ls, tail = l :: ls ∧ stopsAt stops (stripR l) = true) :
+    readMeta sep stops (entries.map (fun kv => encodeLine sep kv.1 kv.2) ++ tail) = .read entries tail := by
+  induction entries with
+  | nil =>
+    rcases htail with rfl | ⟨l, ls, rfl, hl⟩
+    · rfl
+    · simp only [List.map_nil, List.nil_append]
+      rw [readMeta, if_pos hl]
+  | cons kv es ih =>
+    obtain ⟨hs, hk, hv⟩ := clean_line sep hsep stops kv (h kv (by simp))
+    have hc := h kv (by simp)
+    rw [List.map_cons, List.cons_append, readMeta_written_line sep hsep stops kv.1 kv.2 _ hs,
+      if_neg (by rintro (h1 | h1); exacts [hc.1 h1, hc.2.1 h1]), ih (fun x hx => h x (by simp [hx])), hk, hv]
+
+/-- a value (or key) the format cannot carry is refused by the whole reader, not only by the line codec: after any number of clean
+entries, a written line whose key or value contains the separator — anywhere, also at the very end — makes the loop refuse the
+document, whatever follows -/
+theorem readMeta_refuses_separator (sep : Char) (hsep : isSpaceC sep = false) (stops : List Str) (entries : List (Str × Str))
+    (k v : Str) (more : List Str) (h : ∀ kv ∈ entries, CleanEntry sep stops kv)
+    (hstop : stopsAt stops (stripR (encodeLine sep k v)) = false) (hbad : sep ∈ k ∨ sep ∈ v) :
+    readMeta sep stops (entries.map (fun kv => encodeLine sep kv.1 kv.2) ++ encodeLine sep k v :: more) = .refused := by
+  induction entries with
+  | nil =>
+    simp only [List.map_nil, List.nil_append]
+    rw [readMeta_written_line sep hsep stops k v more hstop, if_pos hbad]
+  | cons kv es ih =>
+    obtain ⟨hs, _, _⟩ := clean_line sep hsep stops kv (h kv (by simp))
+    have hc := h kv (by simp)
+    rw [List.map_cons, List.cons_append, readMeta_written_line sep hsep stops kv.1 kv.2 _ hs,
+      if_neg (by rintro (h1 | h1); exacts [hc.1 h1, hc.2.1 h1]), ih (fun x hx => h x (by simp [hx]))]
+
+/-- non-vacuity: the entries of an ordinary document are clean; `comment,see notes,` after them is refused -/
+example : CleanEntry ',' ["data".toList, "model".toList] ("material".toList, "m1".toList) ∧
+    CleanEntry ',' ["data".toList, "model".toList] ("temperature".toList, "77.0".toList) := by
+  refine ⟨⟨by decide, by decide, by decide, by decide, by decide⟩, ⟨by decide, by decide, by decide, by decide, by decide⟩⟩
+
+example : readMeta ',' ["data".toList, "model".toList]
+    ["material,m1".toList, "comment,see notes,".toList, "data:[pressure,loading,branch,(otherdata)]".toList] = .refused := by decide
+
+/-- candidate finding C2 in the model: a value that ENDS in a line break is not refused — the empty line it leaves ends the block, so
+the reader never reaches the data header: the value comes back without the line break and the rest of the document is dropped -/
+theorem readMeta_trailing_newline_cuts_document :
+    readMeta ',' ["data".toList, "model".toList]
+        (docLines (writeMeta ',' [("material".toList, "m1".toList), ("comment".toList, "ab\n".toList)] ++ "data:[pressure]\n1.0\n".toList)) =
+      .read [("material".toList, "m1".toList), ("comment".toList, "ab".toList)] ["".toList, "data:[pressure]".toList, "1.0".toList, "".toList] := by
+  decide
+
+/-- ... while a line break INSIDE a value leaves a line without separator, which is refused -/
+theorem readMeta_inner_newline_refused :
+    readMeta ',' ["data".toList, "model".toList]
+        (docLines (writeMeta ',' [("material".toList, "m1".toList), ("comment".toList, "ab\ncd".toList)] ++ "data:[pressure]\n1.0\n".toList)) = .refused := by
+  decide
 
 end PgVerif.C07
